@@ -16,6 +16,18 @@ theorem isGraph_ge {b : Nat} (h : isGraph b = true) : 33 ≤ b := by
 theorem isPrint_ge {b : Nat} (h : isPrint b = true) : 32 ≤ b := by
   simp only [isPrint, Bool.and_eq_true, decide_eq_true_eq] at h; exact h.1
 
+theorem isWordByte_ge {b : Nat} (h : isWordByte b = true) : 33 ≤ b := by
+  simp only [isWordByte, Bool.or_eq_true, decide_eq_true_eq] at h
+  rcases h with h | h
+  · exact isGraph_ge h
+  · omega
+
+theorem isDescByte_ge {b : Nat} (h : isDescByte b = true) : 32 ≤ b := by
+  simp only [isDescByte, Bool.or_eq_true, decide_eq_true_eq] at h
+  rcases h with h | h
+  · exact isPrint_ge h
+  · omega
+
 structure HeaderOk (r : SrcRec) : Prop where
   id_ne : r.id ≠ []
   id_ge : ∀ b ∈ r.id, 33 ≤ b
@@ -27,7 +39,7 @@ theorem headerOk_of_wf {r : SrcRec} (h : wfHeader r = true) : HeaderOk r := by
   unfold wfHeader at h
   simp only [Bool.and_eq_true, Bool.not_eq_true', List.isEmpty_eq_false_iff, List.all_eq_true] at h
   obtain ⟨⟨h1, h2⟩, h3⟩ := h
-  refine ⟨h1, fun b hb => isGraph_ge (h2 b hb), ?_, ?_, ?_⟩
+  refine ⟨h1, fun b hb => isWordByte_ge (h2 b hb), ?_, ?_, ?_⟩
   · intro d hd
     rw [hd] at h3
     simp only [Bool.and_eq_true, Bool.not_eq_true', List.isEmpty_eq_false_iff] at h3
@@ -35,7 +47,7 @@ theorem headerOk_of_wf {r : SrcRec} (h : wfHeader r = true) : HeaderOk r := by
   · intro d hd b hb
     rw [hd] at h3
     simp only [Bool.and_eq_true, List.all_eq_true] at h3
-    exact isPrint_ge (h3.1.1.2 b hb)
+    exact isDescByte_ge (h3.1.1.2 b hb)
   · intro d hd
     rw [hd] at h3
     simp only [Bool.and_eq_true, bne_iff_ne, ne_eq] at h3
